@@ -2,6 +2,8 @@
 //! that multi-megabyte cases can be replayed from a short string
 //! `family:m:n:variant`.
 
+#[allow(unused_imports)]
+use crate::prelude::*;
 use crate::gen;
 
 pub const FAMILIES: &[&str] = &[
